@@ -24,7 +24,7 @@ FLOORS = {
     'thorough': {'evaluations': 500000, 'distinct_nontrivial': 50000, 'snapshots_compared': 1000000,
                  'but_calls': 50000, 'rewrite_calls': 100000, 'cast_calls': 30000, 'W_writes_total': 400000},
 }
-BUDGET = {'quick': {'asts': 5000, 'seqs': 5}, 'thorough': {'asts': 45000, 'seqs': 6}}
+BUDGET = {'quick': {'asts': 5000, 'seqs': 5}, 'thorough': {'asts': 160000, 'seqs': 6}}
 TIMEOUT = {'quick': 900, 'thorough': 7200}
 
 REWRITES = ('simplify', 'split_and', 'refactor_reference', 'replace_this_with_var', 'replace_var_with_this',
